@@ -7,6 +7,7 @@ mod window;
 mod vplrun;
 mod expr;
 mod zdd;
+mod coord;
 
 fn main() {
     let args: Vec<String> = std::env::args().collect();
@@ -27,6 +28,8 @@ fn main() {
         "expr-total" => expr::total(rest),
         "zdd-pairs" => zdd::pairs(rest),
         "zdd-machine" => zdd::machine(rest),
+        "coord-replay" => coord::replay(rest),
+        "coord-record" => coord::record(rest),
         other => {
             eprintln!("unknown engine {other}");
             std::process::exit(2);
